@@ -69,3 +69,21 @@ func id0(qr *quotaResource) string {
 	}
 	return "?"
 }
+
+// VerifObserve reads the group counters of every quota of the provider exactly like
+// observeQuotaUsed does (the OpenTelemetry callback), returning the number of counters read.
+func VerifObserve(q QuotaAdmI) int {
+	qr, ok := q.(*quotaResource)
+	if !ok {
+		return 0
+	}
+	n := 0
+	for quotaID := range qr.definedQuotas {
+		quota, err := qr.getQuota(quotaID)
+		if err != nil {
+			continue
+		}
+		n += len(quota.GetQuotaGroupsCounters())
+	}
+	return n
+}
